@@ -157,6 +157,48 @@ func corrMemfs(seed uint64, tier string, replay []string, prop string, opts fsGe
 		return res
 	}
 	seen := map[string]bool{}
+	// C05's own oracle on the implementation: (a) a failed call leaves the node graph exactly as it was (RemoveAll and
+	// handle operations excepted), (b) the dumped graph satisfies the Lean predicate wfCheck after every call.
+	var wfLines []string
+	var wfWhere [][2]int
+	for k, h := range hs {
+		prev := ""
+		for i, l := range h {
+			if !strings.HasSuffix(l, " dump") {
+				continue
+			}
+			cur := impls[k][i]
+			if i > 0 && prev != "" && strings.HasPrefix(impls[k][i-1], "err ") {
+				pf := strings.Fields(h[i-1])
+				if pf[2] != "removeall" && pf[2] != "file" && cur != prev && !seen["failed-changed|"+pf[2]] {
+					seen["failed-changed|"+pf[2]] = true
+					res.Mismatches = append(res.Mismatches, lib.Mismatch{Kind: "violation", Class: "c05.failed-call-changed-tree." + pf[2],
+						What:    fmt.Sprintf("the call %q failed with %q but changed the tree", h[i-1], impls[k][i-1]),
+						History: append(lib.History{}, h[:i+1]...), Impl: []string{prev, cur}, Index: i})
+				}
+			}
+			prev = cur
+			if strings.HasPrefix(cur, "dump ") && (k%4 == 0 || tier == "thorough") {
+				wfLines = append(wfLines, "fs wfcheck "+cur)
+				wfWhere = append(wfWhere, [2]int{k, i})
+			}
+		}
+	}
+	if len(wfLines) > 0 {
+		wfOut, werr := lib.RunDriver(wfLines)
+		if werr == nil {
+			for j, o := range wfOut {
+				if o != "ok true" && !seen["wf"] {
+					seen["wf"] = true
+					k, i := wfWhere[j][0], wfWhere[j][1]
+					res.Mismatches = append(res.Mismatches, lib.Mismatch{Kind: "violation", Class: "c05.impl-graph-not-wellformed",
+						What:    fmt.Sprintf("after %q the implementation's node graph violates the tree invariant (wfCheck = %s)", hs[k][i-1], o),
+						History: append(lib.History{}, hs[k][:i+1]...), Impl: []string{impls[k][i]}, Index: i})
+				}
+			}
+		}
+		res.Notes = append(res.Notes, fmt.Sprintf("wfCheck evaluated on %d dumped implementation graphs", len(wfLines)))
+	}
 	for k, h := range hs {
 		for i, l := range h {
 			if i == 0 || strings.HasSuffix(l, " dump") {
